@@ -202,3 +202,72 @@ Section Big.
       + destruct (k - n)%nat as [|[|d]] eqn:E; [lia| |]; reflexivity.
   Qed.
 End Big.
+
+(* ---- the same walk over an arbitrary prefix and end tag (used for the header crate: prefix = the 16-byte basic header) *)
+Section GenBig.
+  Variable pre post tag : list byte.
+  Variable n : nat.
+  Let L := len tag.
+  Let s := le (slice tag 4 4).
+  Let P := len pre.
+  Let T := P + N.of_nat n * L + 8.
+  Let bs := pre ++ concat (repeat tag n) ++ post.
+  Hypothesis Hs : 8 <= s.
+  Hypothesis HL : round8 s = L.
+  Hypothesis Hpost : len post = 8.
+  Hypothesis Hend : le (slice post 4 4) = 8.
+
+  Definition gen_off (i : nat) : N := P + N.of_nat i * L.
+
+  Lemma gen_len : len bs = T.
+  Proof. unfold bs. rewrite !len_app, len_concat_repeat, Hpost. unfold T, P, L. lia. Qed.
+
+  Lemma gen_slice_tag k o w : (k < n)%nat -> o + w <= L -> slice bs (gen_off k + o) w = slice tag o w.
+  Proof. intros Hk How. unfold bs, gen_off, P, L. apply slice_repeat; assumption. Qed.
+
+  Lemma gen_slice_post o w : o + w <= 8 -> slice bs (gen_off n + o) w = slice post o w.
+  Proof.
+    intros How. unfold bs, gen_off. rewrite app_assoc.
+    rewrite slice_app_r by (rewrite len_app, len_concat_repeat; unfold P, L; lia).
+    rewrite len_app, len_concat_repeat.
+    replace (P + N.of_nat n * L + o - (len pre + N.of_nat n * len tag)) with o by (unfold P, L; lia).
+    reflexivity.
+  Qed.
+
+  Lemma gen_size_at k : (k < n)%nat -> size_at bs (gen_off k) = s.
+  Proof. intros Hk. unfold size_at. rewrite gen_slice_tag; [reflexivity|exact Hk|]. unfold s, L, round8 in *. lia. Qed.
+
+  Lemma gen_size_end : size_at bs (gen_off n) = 8.
+  Proof. unfold size_at. rewrite gen_slice_post by lia. exact Hend. Qed.
+
+  Definition gen_items_from (k j : nat) : list item :=
+    map (fun i => {| i_off := gen_off i; i_size := s |}) (seq k j) ++ [{| i_off := gen_off n; i_size := 8 |}].
+
+  Lemma gen_walk_from : forall j k, (k + j = n)%nat -> walk bs T (gen_off k) (gen_items_from k j) true.
+  Proof.
+    induction j as [|j IH]; intros k Hk.
+    - assert (k = n) by lia. subst k. cbn [gen_items_from seq map app].
+      replace {| i_off := gen_off n; i_size := 8 |}
+        with {| i_off := gen_off n; i_size := size_at bs (gen_off n) |} by (rewrite gen_size_end; reflexivity).
+      apply W_step.
+      + unfold gen_off, T. lia.
+      + rewrite gen_size_end. lia.
+      + rewrite gen_size_end. unfold gen_off, T, round8. lia.
+      + rewrite gen_size_end. replace (gen_off n + round8 8) with T by (unfold gen_off, T, round8; lia).
+        apply W_end.
+    - cbn [gen_items_from seq map app].
+      assert (Hkn : (k < n)%nat) by lia.
+      replace {| i_off := gen_off k; i_size := s |}
+        with {| i_off := gen_off k; i_size := size_at bs (gen_off k) |} by (rewrite gen_size_at by exact Hkn; reflexivity).
+      apply W_step.
+      + unfold gen_off, T. lia.
+      + rewrite gen_size_at by exact Hkn. exact Hs.
+      + rewrite gen_size_at by exact Hkn. rewrite HL. unfold gen_off, T. lia.
+      + rewrite gen_size_at by exact Hkn. rewrite HL.
+        replace (gen_off k + L) with (gen_off (S k)) by (unfold gen_off; lia).
+        apply IH. lia.
+  Qed.
+
+  Lemma gen_walk : walk bs T P (gen_items_from 0 n) true.
+  Proof. replace P with (gen_off 0) by (unfold gen_off; lia). apply gen_walk_from. lia. Qed.
+End GenBig.
